@@ -15,7 +15,7 @@ LEVEL_TEXT = ('Histories are unbounded; decided is history-independence for all 
 LEVEL_NOTE = ('Trusted: front-end, interpreter (class table, properties, super()), the stub of configuration loading (attributes initialised as __init__/reinit do). Not decided: sequences longer than 2, array aliasing effects, '
               'the numerical laws inside the rheology model holders of the layered model (uninterpreted pure functions; the holder classes themselves -- calculate, _calculate, live-argument getters, properties -- are interpreted in the second pass of R13.7), the cooling / radiogenic holders (stubs).')
 EXPLANATION = ('R13.3 history independence on the abstract object graph (single mutators and pairs) for CPL and CTL; R13.2 guard implication in update routines of the tidal classes; '
-               'R13.4 flag plumbing: each mutator reaches the tides update with the flag of what it changed; R13.5 late-binding closures; R13.6 a fully updated world equals the functional API at that state; R13.7 history independence of a three-layer LayeredWorld incl. temperature changes; R13.8 per-layer heating equals the functional API on the inputs of that layer; R13.9 host-only dissipation: changes routed through the orbit, the orbiting body or the host leave the tidal quantities of the host and the cached da/dt, de/dt, dn/dt of the orbit equal to a fresh system.')
+               'R13.4 flag plumbing: each mutator reaches the tides update with the flag of what it changed; R13.5 late-binding closures; R13.6 a fully updated world equals the functional API at that state; R13.7 history independence of a three-layer LayeredWorld incl. temperature changes; R13.8 per-layer heating equals the functional API on the inputs of that layer; R13.9 host-only dissipation: changes routed through the orbit, the orbiting body or the host leave the tidal quantities of the host and the cached da/dt, de/dt, dn/dt of the orbit equal to a fresh system. R13.10 two tidal worlds on one orbit updated by one OrbitBase.set_states call with per-world None entries: both worlds equal fresh worlds in their final states.')
 EXPLANATION += ' R13.3 is decided a second time with array-valued state (arrays as mutable cells): the arrays the driver handed over come back intact and the exposed quantities equal those of a fresh world.'
 
 QUANT = ('_tidal_heating_global', '_dUdM', '_dUdw', '_dUdO', '_tidal_susceptibility')
@@ -58,6 +58,96 @@ def build(repo, it, st, use_ctl, obliq_on, sync=False):
     for o in (s.tides, s.world, s.orbit):
         constructor_defaults(it, o)
     return s
+
+
+def add_world(repo, it, s, st2, use_ctl, obliq_on):
+    """a second tidal world on the same orbit (index 2): the same classes, its own state"""
+    s2 = build(repo, it, st2, use_ctl, obliq_on)
+    s.world2, s.tides2 = s2.world, s2.tides
+    s.world2.name = 'world2'; s.world2.attrs['name'] = 'world2'; s.world2.attrs['__index__'] = 2; s.world2.attrs['orbit'] = s.orbit
+    oa = s.orbit.attrs
+    oa['_eccentricities'].append(st2['e']); oa['_semi_major_axes'].append(st2['a'])
+    for k_ in ('_orbital_frequencies', '_orbital_periods', '_eccentricity_time_derivatives', '_semi_major_axis_time_derivatives', '_orbital_motion_time_derivatives'):
+        oa[k_].append(None)
+    oa['_tidal_objects'].append(s.world2); oa['_all_objects'].append(s.world2)
+    return s
+
+
+def exposed_of(s, tides, idx):
+    out = {q: tides.attrs.get(q) for q in QUANT}
+    uf = tides.attrs.get('_unique_tidal_frequencies')
+    if isinstance(uf, dict):
+        for sig, v in uf.items(): out[f'unique_frequency{sig}'] = v
+    out['de/dt'] = s.orbit.attrs['_eccentricity_time_derivatives'][idx]
+    out['da/dt'] = s.orbit.attrs['_semi_major_axis_time_derivatives'][idx]
+    out['n'] = s.orbit.attrs['_orbital_frequencies'][idx]
+    return out
+
+
+BATCHED = {
+    # name -> per-world (eccentricity, semi-major axis, orbital frequency, orbital period) sent through OrbitBase.set_states; None = that world's value is left alone
+    'set_states(e for the first world, a for the second)': (('e', None, None, None), (None, 'a', None, None)),
+    'set_states(a for the first world, e for the second)': ((None, 'a', None, None), ('e', None, None, None)),
+    'set_states(e and a for the first world, nothing for the second)': (('e', 'a', None, None), (None, None, None, None)),
+    'set_states(nothing for the first world, e and a for the second)': ((None, None, None, None), ('e', 'a', None, None)),
+    'set_states(e and a for both worlds)': (('e', 'a', None, None), ('e', 'a', None, None)),
+}
+
+
+def batched_two_worlds(chk, repo, d, rule):
+    """two tidal worlds on one orbit, updated in one OrbitBase.set_states call with per-world None entries: each world must end up as a fresh world in its own final state"""
+    mo = repo.by_path('TidalPy/structures/orbit/base.py')
+    d = X.Decider(seed=chk.seed + 5, k=2, positive=[X.atom('M_host', 'pos') + X.atom('M_world', 'pos'), X.atom('M_host', 'pos') + X.atom('M_worldB', 'pos')])
+    for use_ctl in (False, True):
+        model = 'CTL' if use_ctl else 'CPL'
+        for name, spec in BATCHED.items():
+            sts = [state_atoms('0'), {k_: (X.atom(k_ + 'B0', 'pos' if k_ in ('Q', 'dt', 'e', 'a') else 'real') if k_ in ('Q', 'dt', 'spin', 'obl', 'e', 'a') else v_) for k_, v_ in state_atoms('0').items()}]
+            sts[1]['M_world'] = X.atom('M_worldB', 'pos'); sts[1]['R'] = X.atom('RB', 'pos')
+            finals = [dict(sts[0]), dict(sts[1])]
+            lists = {'e': [None, None], 'a': [None, None]}
+            for w_, sp_ in enumerate(spec):
+                for k_ in sp_[:2]:
+                    if k_ is not None:
+                        lists[k_][w_] = finals[w_][k_] = X.atom(f'{k_}{"AB"[w_]}1', 'pos')
+
+            def prime(it, s):
+                for w_ in (s.world, s.world2):
+                    call(it, s.orbit, 'set_semi_major_axis', w_, s.orbit.attrs['_semi_major_axes'][w_.attrs['__index__']], called_from_orbit=False)
+                for w_ in (s.world, s.world2):
+                    call(it, w_, 'orbit_spin_changed', orbital_freq_changed=True, spin_freq_changed=True, eccentricity_changed=True, obliquity_changed=True)
+
+            def history(fork):
+                it = make_interp(repo)
+                it.hooks['fork'] = fork
+                s = add_world(repo, it, build(repo, it, sts[0], use_ctl, True), sts[1], use_ctl, True)
+                prime(it, s)
+                kw = {}
+                if any(v_ is not None for v_ in lists['e']): kw['eccentricities'] = list(lists['e'])
+                if any(v_ is not None for v_ in lists['a']): kw['semi_major_axes'] = list(lists['a'])
+                call(it, s.orbit, 'set_states', [s.world, s.world2], **kw)
+                return {'first world: ' + q_: v_ for q_, v_ in exposed_of(s, s.tides, 1).items()} | {'second world: ' + q_: v_ for q_, v_ in exposed_of(s, s.tides2, 2).items()}
+            try:
+                got, path_label = explore_history(history)
+                it2 = make_interp(repo)
+                sf = add_world(repo, it2, build(repo, it2, finals[0], use_ctl, True), finals[1], use_ctl, True)
+                prime(it2, sf)
+                ref = {'first world: ' + q_: v_ for q_, v_ in exposed_of(sf, sf.tides, 1).items()} | {'second world: ' + q_: v_ for q_, v_ in exposed_of(sf, sf.tides2, 2).items()}
+            except RaiseSignal as ex:
+                raise AnalysisError(f'{name} on {model}: unexpected raise {ex.text}')
+            bad = []
+            for q in sorted(set(got) | set(ref)):
+                a_, b_ = got.get(q), ref.get(q)
+                if a_ is None and b_ is None: continue
+                if isinstance(a_, ArrBox): a_ = X.lift(a_)
+                if isinstance(b_, ArrBox): b_ = X.lift(b_)
+                if not (isinstance(a_, X.Node) and isinstance(b_, X.Node)):
+                    if isinstance(a_, dict) and isinstance(b_, dict): continue
+                    bad.append(f'{q}: {"unset" if a_ is None else "set"} after the batched update, {"unset" if b_ is None else "set"} on fresh worlds'); continue
+                if not d.equal(a_, b_):
+                    r_, sc = d.residual(a_, b_)
+                    bad.append(f'{q.lstrip("_")} differs from a fresh world in the final state (float residual {r_:.3g} on scale {sc:.3g})')
+            chk.ob(rule, f'{model}, two tidal worlds on one orbit: after orbit.{name} every exposed tidal quantity of both worlds equals that of fresh worlds in the final state', not bad,
+                   '; '.join(bad[:4]) + (path_label if bad else ''), mo.rel(), key=f'{rule}|{model}|two-worlds|{name}', method='abstract object graph (two worlds) + GF(p^2) PIT')
 
 
 def constructor_defaults(it, obj):
@@ -381,6 +471,8 @@ def run(chk):
     c13_hostonly.run_hostonly(chk, repo, 'R13.9')
     chk.floor('R13.9', 12)
     from .solver_whole import guarded
+    guarded(chk, 'C13', lambda: batched_two_worlds(chk, repo, d, 'R13.10'))
+    chk.floor('R13.10', 10)
     guarded(chk, 'C13', lambda: functional_api(chk, repo, d))
     guarded(chk, 'C13', lambda: plumbing(chk, repo))
     chk.floor('R13.3', 25); chk.floor('R13.5', 1); chk.floor('R13.4', 6); chk.floor('R13.6', 4)      # (R13.2 is a localising lint over routines that assign cached fields directly; history independence itself is R13.3 / R13.7 / R13.9)
